@@ -301,7 +301,7 @@ def gen_normal_inline(sch, rnd, g):
             ms = ()
             for mn in ("link", "em", "strong", "code"):
                 if mn in rs.marks and rnd.random() < 0.22:
-                    at = {"href": rnd.choice(["x", "http://a/?b=1&c=2", 'q"<']), "title": None} if mn == "link" else {}
+                    at = {"href": rnd.choice(["x", "http://a/?b=1&c=2", 'q"<', ""]), "title": None} if mn == "link" else {}
                     ms = rs.ref_add((mn, flat.akey(at)), ms)
             trailing = k < n - 1 and rnd.random() < 0.3
             items.append(("t", txt + (" " if trailing else ""), ms))
@@ -310,7 +310,7 @@ def gen_normal_inline(sch, rnd, g):
             items.append(("n", "hard_break", "{}", (), ()))
             prev_space_ok = False
         else:
-            at = {"src": rnd.choice(["i.png", "a&b.png", 'x".png']), "alt": None, "title": rnd.choice([None, "t<i>"])}
+            at = {"src": rnd.choice(["i.png", "a&b.png", 'x".png', ""]), "alt": None, "title": rnd.choice([None, "t<i>", ""])}
             items.append(("n", "image", flat.akey(at), (), ()))
             prev_space_ok = True
     # no space at the edges / next to a break
